@@ -214,6 +214,25 @@ fn run_inner(op: &str, a: &[Arg]) -> String {
         "eval" => per_rep!(f(&a[0]), x => enc_bool(x.evaluate_with_default(pv(&a[1]), ob(&a[2])))),
         "eval0" => per_rep!(f(&a[0]), x => enc_bool(x.evaluate(pv(&a[1])))),
         "evalc" => per_rep!(f(&a[0]), x => enc_checked(x.evaluate_checked(pv(&a[1])))),
+        // the table / diagram form *of an expression* (built by the crate's own conversion), evaluated
+        // in the three modes; judged against the expression's meaning
+        "eval.of" => match f(&a[0]) {
+            Val::E(e) => {
+                let v = pv(&a[2]);
+                let d = ob(&a[3]);
+                match xs(&a[1]) {
+                    "T" => {
+                        let x = TruthTable::from(e);
+                        format!("(L {} {} {})", enc_bool(x.evaluate_with_default(v, d)), enc_bool(x.evaluate(v)), enc_checked(x.evaluate_checked(v)))
+                    }
+                    _ => match Bdd::try_from(e.clone()) {
+                        Ok(x) => format!("(L {} {} {})", enc_bool(x.evaluate_with_default(v, d)), enc_bool(x.evaluate(v)), enc_checked(x.evaluate_checked(v))),
+                        Err(_) => "(err TooManyVariables)".to_string(),
+                    },
+                }
+            }
+            _ => panic!("HARNESS: kind"),
+        },
         // ---- connectives (by value)
         "and" | "or" | "xor" => match (f(&a[0]), f(&a[1])) {
             (Val::E(x), Val::E(y)) => enc_expr(&match op {
